@@ -1466,7 +1466,14 @@ class EvolveAppTask(BaseEvolutionTask):
 
         for mutation in self._mutations:
             mutation_types.add(type(mutation).__name__)
-            mutation_lines.append('    %s,' % mutation)
+            mutation_line = '    %s,' % mutation
+            mutation_lines.append(mutation_line)
+
+            if 'models.' in mutation_line:
+                # The hint references something in django.db.models (a
+                # field type, Q, F, Index, constraint, ...), regardless of
+                # the type of mutation.
+                imports.add('from django.db import models')
 
             if isinstance(mutation, AddField):
                 field_module = mutation.field_type.__module__
